@@ -32,10 +32,18 @@ def behaviours_from(printed):
 
 
 def simulate(chk, cfg, num, depth, seed):
-    r = tlc.run('MC_System.tla', cfg, workers=1, simulate='num=%d' % num, depth=depth, seed=seed, timeout=900)
-    if r.error and 'timeout' in str(r.error):
-        raise core.Machinery('simulation timed out')
-    behs = behaviours_from(r.printed)
+    for attempt in range(3):
+        r = tlc.run('MC_System.tla', cfg, workers=1, simulate='num=%d' % num, depth=depth, seed=seed, timeout=900)
+        if r.violated:
+            raise core.Machinery('simulation of %s: %s violated' % (cfg, r.violated))
+        behs = behaviours_from(r.printed)
+        if behs:
+            break
+    if not behs:
+        # (seen once under heavy machine load) the simulated behaviours are an ADDITION to the transition cover: go on without them,
+        # and say so in the evidence
+        chk.subruns.append(dict(r.summary(), label='simulate ' + cfg + ' (no behaviours obtained in 3 attempts: %s)' % (r.error or 'nothing printed'), kind='simulation', behaviours=0))
+        return []
     # in simulation mode TLC also evaluates the emitting invariant on candidate successors it does not take; every printed
     # history is a behaviour of the specification all the same.  Keep the longest ones, and a seeded sample of those.
     behs = sorted(_maximal(behs), key=lambda h: (-len(h), json.dumps(h, sort_keys=True)))
